@@ -1,6 +1,9 @@
+mod check;
 mod gen;
 mod judge;
+mod minijson;
 mod model;
+mod props;
 mod oracle;
 mod util;
 
@@ -141,10 +144,116 @@ fn extract(path: &str) {
     std::fs::write(path, out).expect("write tables");
 }
 
+fn arg_after(args: &[String], name: &str) -> Option<String> {
+    args.iter().position(|a| a == name).and_then(|i| args.get(i + 1)).cloned()
+}
+
+fn load_known(path: &str) -> Vec<check::KnownFinding> {
+    let Ok(text) = std::fs::read_to_string(path) else { return vec![] };
+    let j = minijson::parse(&text).expect("known_findings.json does not parse");
+    j.get("findings")
+        .map(|f| {
+            f.arr()
+                .iter()
+                .map(|e| check::KnownFinding {
+                    id: e.get("id").and_then(|x| x.str()).unwrap_or("").to_string(),
+                    properties: e.get("properties").map(|p| p.arr().iter().filter_map(|x| x.str().map(|s| s.to_string())).collect()).unwrap_or_default(),
+                    guard: e.get("guard").and_then(|x| x.str()).unwrap_or("").to_string(),
+                    what: e.get("what").and_then(|x| x.str()).unwrap_or("").to_string(),
+                })
+                .collect()
+        })
+        .unwrap_or_default()
+}
+
+fn make_ctx(args: &[String], prop: &str) -> check::Ctx {
+    let verif = arg_after(args, "--verif").unwrap_or("/verif".into());
+    let tier = if arg_after(args, "--tier").as_deref() == Some("thorough") { check::Tier::Thorough } else { check::Tier::Quick };
+    let seed = arg_after(args, "--seed").and_then(|s| s.parse().ok()).unwrap_or(20260930);
+    let lean_broken = arg_after(args, "--lean-broken").and_then(|p| std::fs::read_to_string(p).ok());
+    check::Ctx {
+        prop: prop.to_string(),
+        tier,
+        seed,
+        model: model::Model { driver: arg_after(args, "--driver"), procs: 16 },
+        classes: oracle::Classes::new(),
+        known: load_known(&format!("{}/known_findings.json", verif)),
+        threads: 16,
+        verif_dir: verif,
+        lean_broken,
+        obligations: arg_after(args, "--obligations").and_then(|s| s.parse().ok()).unwrap_or(0),
+        discharged: arg_after(args, "--discharged").and_then(|s| s.parse().ok()).unwrap_or(0),
+        checker_cmd: arg_after(args, "--checker-cmd").unwrap_or_default(),
+        repo_dir: arg_after(args, "--repo").unwrap_or("/repo".into()),
+    }
+}
+
+fn run_check(args: &[String]) -> i32 {
+    silence_panics();
+    let prop = args[2].clone();
+    let ctx = make_ctx(args, &prop);
+    let t0 = std::time::Instant::now();
+    let mut rng = Rng(ctx.seed ^ prop.bytes().fold(0u64, |a, b| a.wrapping_mul(131).wrapping_add(b as u64)));
+    let plan = props::plan(&ctx, &mut rng, ctx.tier);
+    let mut o = check::run_cases(&ctx, &plan.cases, &*plan.judge, plan.stages);
+    o.exhaustive = plan.exhaustive;
+    let judge = &plan.judge;
+    let rejudge = |c: &Case| -> Vec<judge::Fail> { judge(c, &build_impl(c)) };
+    let search = || -> check::Outcome {
+        // deeper, oracle-only exploration of the same property
+        let mut rng2 = Rng(ctx.seed.wrapping_add(0x5eed));
+        let deep = props::plan(&ctx, &mut rng2, check::Tier::Thorough);
+        let quiet = check::Ctx { model: model::Model { driver: None, procs: 1 }, ..make_ctx(args, &prop) };
+        check::run_cases(&quiet, &deep.cases, &*deep.judge, false)
+    };
+    if args.iter().any(|a| a == "--show-diffs") {
+        for (c, a, b) in o.model_diffs.iter().take(8) {
+            println!("DIFF {}\n  impl : {}\n  model: {}", c.describe(), a, b);
+        }
+    }
+    let v = check::conclude(&ctx, &mut o, &rejudge, &search);
+    for l in &v.lines {
+        println!("{}", l);
+    }
+    let ev = arg_after(args, "--evidence").unwrap_or(format!("{}/evidence/{}.json", ctx.verif_dir, prop));
+    check::write_evidence(&ctx, &o, &v, t0.elapsed().as_secs_f64(), &ev, &[], &plan.explanation);
+    println!(
+        "# {} {:?}: {} evaluations, {} distinct non-trivial, {} compared with the model ({} differences), {} implementation-vs-oracle failures ({} covered by known findings), {:.1}s",
+        prop,
+        ctx.tier,
+        o.evaluations,
+        o.nontrivial.len(),
+        o.model_compared,
+        o.model_diffs.len(),
+        o.oracle_fails.len(),
+        v.known_hits.values().sum::<usize>(),
+        t0.elapsed().as_secs_f64()
+    );
+    v.exit
+}
+
 fn main() {
     let args: Vec<String> = std::env::args().collect();
     match args.get(1).map(|s| s.as_str()) {
         Some("probe") => probe(),
+        Some("dump") => {
+            // gv dump <bits> <min_rep> <min_len> <hex;hex;...>
+            silence_panics();
+            let tcs: Vec<String> = args[5].split(';').map(|h| unhex(h).expect("hex")).collect();
+            let c = Case { tcs, cfg: Cfg { bits: args[2].parse().unwrap(), min_rep: args[3].parse().unwrap(), min_len: args[4].parse().unwrap() } };
+            println!("{}", c.describe());
+            for f in model::stage_response(&c).split('\t') {
+                println!("{}", f);
+            }
+            println!("{:?}", build_impl(&c));
+            if let Some(pat) = args.get(6) {
+                let re = regex::Regex::new(pat).unwrap();
+                for t in &c.tcs {
+                    println!("{:?} on {:?}: {:?}", pat, t, re.find_iter(t).map(|m| (m.start(), m.end())).collect::<Vec<_>>());
+                }
+            }
+        }
+        Some("check") => std::process::exit(run_check(&args)),
         Some("extract") => extract(&args[2]),
         Some("corr") => corr(&args[2], args.get(3).and_then(|s| s.parse().ok()).unwrap_or(1)),
         _ => eprintln!("usage: gv probe"),
